@@ -28,7 +28,7 @@ Definition expected : list (string * list ptree) := [
   ("Controller.on_hci_accept_connection_request_command"%string, (PS 156743706) :: [(PIf 3313873518 [(PS 576774822); (PS 3319162886)] []); (PIf 3428034635 [(PS 4096566221); (PS 3319162886)] []); (PS 919358751); (PIf 2194671162 [(PS 770310874); (PLoop 2436349412 [(PIf 2966967913 [(PS 3520823702); (PS 1611171409)] [(PS 4154152777)]); (PS 2162191315)]); (PS 3001595164)] [(PS 1611171409); (PS 3994281447)]); (PS 3319162886)]);
   ("Controller.on_advertising_pdu"%string, (PS 3088388177) :: [(PIf 950345475 [(PS 121413861)] [(PS 3755858104)]); (PIf 1421300868 [(PIf 3142405084 [(PS 2768042274); (PS 2983061351); (PIf 702257249 [(PS 3595403908); (PS 2983061351)] [])] [(PS 2274029422); (PS 2328287728); (PIf 702257249 [(PS 795676115); (PS 2328287728)] [])])] []); (PIf 2473492870 [(PS 2387950167)] [])]);
   ("Controller.create_le_connection"%string, (PS 371353055) :: [(PS 2526646262); (PS 104231599); (PIf 1388796062 [(PS 2812165903)] []); (PS 847742542); (PS 713277223); (PS 3831551894); (PS 242610157); (PS 3471769355); (PIf 1618744811 [(PS 2764395992); (PS 2769893974); (PS 1556278070)] [(PS 3080748507); (PS 1091095944); (PS 2430055469)]); (PS 3778913746); (PS 3718149325); (PS 4083334178)]);
-  ("Controller.on_le_connect_ind"%string, (PS 581664493) :: [(PS 3833382060); (PIf 316517781 [(PS 725479738)] [(PS 841939922)]); (PIf 1846924893 [(PS 2812165903)] []); (PS 183112124); (PS 3831551894); (PS 1882462663); (PS 3471769355); (PS 1766930119); (PIf 4165951657 [(PS 84565360)] []); (PS 4189796076)]);
+  ("Controller.on_le_connect_ind"%string, (PS 581664493) :: [(PS 3833382060); (PIf 316517781 [(PS 725479738)] [(PS 841939922)]); (PIf 1846924893 [(PS 1571751616); (PIf 3333633947 [(PS 3011839402)] []); (PS 2812165903)] []); (PS 183112124); (PS 3831551894); (PS 1882462663); (PS 3471769355); (PS 1766930119); (PIf 4165951657 [(PS 84565360)] []); (PS 4189796076)]);
   ("Controller.on_ll_advertising_pdu"%string, (PS 3058158049) :: [(PLoop 1010934900 [(PIf 2352711656 [(PS 1565221633)] []); (PIf 1380325790 [(PS 2373532870)] [])])]);
   ("Controller.on_ll_control_pdu"%string, (PS 1718067480) :: [(PIf 1405876325 [(PS 2812165903)] []); (PLoop 1010934900 [(PIf 2443841427 [(PS 1752938071)] []); (PIf 2161906864 [(PS 4052547473)] []); (PIf 4100748996 [(PS 3863601686); (PS 75786614)] []); (PIf 1509971129 [(PS 3863601686)] []); (PIf 2221130416 [(PS 2018656142)] []); (PIf 2160206114 [(PS 3820190142)] []); (PIf 1413684444 [(PS 1077744907)] []); (PIf 658281098 [(PS 1936489371)] [])])]);
   ("Controller.on_le_disconnected"%string, (PS 1802091290) :: [(PS 2706688105); (PS 952538344)]);
